@@ -51,6 +51,9 @@ pub struct RunReport {
     /// (cut-point enumeration: operation kind | mutation site | variant).
     #[serde(default)]
     pub extra_sites: Vec<String>,
+    /// The scheduler's decision list (concurrency runs).
+    #[serde(default)]
+    pub extra_decisions: Vec<u16>,
 }
 
 impl RunReport {
